@@ -42,6 +42,8 @@ def translation_clause(model, rep, funcs):
             if nm == "translate" and args:
                 seen["tr"] = args[0]
                 seen["tr_recv"] = norm_src(node.func.value)
+            if nm in ("translate_internal", "linear_transform") and args:
+                seen["wrong_frame"] = (nm, node)
             if nm == "replace":
                 seen["scale"] = kwargs.get("scale")
                 seen["mol"] = norm_src(kwarg(node, "molecules")) if kwarg(node, "molecules") is not None else None
@@ -52,6 +54,12 @@ def translation_clause(model, rep, funcs):
         tr = seen.get("tr")
         comps = list(tr.items) if isinstance(tr, Tup) else None
         sc = seen.get("scale")
+        if "wrong_frame" in seen:
+            nm_, node_ = seen["wrong_frame"]
+            rep.ob("F", a, "the half-bin offset is a translation along the tomogram (world) axes", False,
+                   f"`{norm_src(node_)[:80]}` applies the offset along each molecule's own axes: it is rotated by the molecule's orientation, so rotated molecules "
+                   "no longer look at the same physical region", node=node_, fn=f, clause="translation", stmt=f"binning frame ({a.split('::')[1]})")
+            continue
         if not comps or len(comps) != 3 or not all(isinstance(c, A) for c in comps) or not isinstance(sc, A):
             rep.ob("A", a, "half-bin translation and new scale evaluated symbolically", None, f"translate arg {tr!r}, scale {sc!r}", node=f.node, fn=f,
                    clause="translation", stmt=f"def binning ({a.split('::')[1]})")
